@@ -106,7 +106,7 @@ def run_bounded(chk):
     n_eval = 0
     counts = {"simple": 0, "crossing": 0}
     grid = list(itertools.product(range(3), repeat=2))
-    sizes = (4,) if chk.tier == "quick" else (4, 5)
+    sizes = (4,) if chk.bounded_tier == "quick" else (4, 5)
     for n in sizes:
         for cyc in itertools.permutations(grid, n):
             if cyc[0] != min(cyc):          # up to cyclic rotation
@@ -215,4 +215,4 @@ def run_bounded(chk):
                                  "lattice polygons; cube + interior points; 29 vertex orders of the cube; alias check of all ten classes",
                         "evaluations": n_eval, "distinct_nontrivial": n_eval, "rule": "distinct = candidate vertex lists",
                         "samples": [{"cycle": [[0, 0], [2, 2], [2, 0], [0, 2]], "class": "crossing"}],
-                        "failures": len(fails), "exhaustive": chk.tier != "quick"})
+                        "failures": len(fails), "exhaustive": chk.bounded_tier != "quick"})
